@@ -52,7 +52,7 @@ Section FLe.
     flw p cp N (FVar v ty chi) /\ flc p cp N (FVar v ty chi) /\ flt p cp N (FVar v ty chi).
   Proof.
     intros N v ty chi. split; [|split].
-    - intros n Hn G cur cont st s st' e ce k Hwc Hf Hkd Hws Hnc Hl HG Hb Hni H8 Hsh He HCK.
+    - intros n Hn G cur cont st s st' e ce k Hwc Hf Hkd Hws Hl HG Hb Hni Hsh He HCK.
       rewrite wc_unfold in Hwc. apply wc_var_inv in Hwc. destruct Hwc as [ty0 [Ety [Es Est]]]. subst.
       simpl in Hws. apply var_ok_inv in Hws. destruct Hws as [ty1 [E1 Hg]]. injection E1 as E1. subst ty1.
       destruct (erel_var p cp n G _ e ce v _ He Hg) as [val [pv [El [Ec [Hv Hd]]]]].
@@ -65,7 +65,7 @@ Section FLe.
       apply sim_cstep. eapply sim_rreach; [|exact Hr]. simpl. rewrite Ec.
       eapply Kk_use; [exact Hk | lia | | eapply vrel_mono; [exact Hv | lia]].
       unfold tkind. simpl. rewrite <- (is_codata_compile p cp Hcod). exact Hd.
-    - intros n Hn G cur ty' st c st' e ce k m Hc Hf Hkd Hk0 Hws Hnc Hl HG Hb Hty He HK.
+    - intros n Hn G cur ty' st c st' e ce k m Hc Hf Hkd Hk0 Hws Hl HG Hb Hty He HK.
       rewrite cmp_unfold in Hc. apply cmp_var_inv in Hc. destruct Hc as [ty0 [Ety [Es Est]]]. subst.
       simpl in Hws. apply var_ok_inv in Hws. destruct Hws as [ty1 [E1 Hg]]. injection E1 as E1. subst ty1.
       destruct (erel_var p cp n G _ e ce v _ He Hg) as [val [pv [El [Ec [Hv Hd]]]]].
@@ -75,7 +75,7 @@ Section FLe.
       eapply sim_fstep; [simpl; rewrite El; reflexivity|].
       apply sim_cstep. simpl. rewrite Ec.
       eapply Kb_ret; [exact HK | lia | exact Hd | eapply vrel_mono; [exact Hv | lia]].
-    - intros n Hn G cur ty' st c st' e ce Hc Hf Hkd Hk1 Hws Hnc Hl HG Hb Hty He.
+    - intros n Hn G cur ty' st c st' e ce Hc Hf Hkd Hk1 Hws Hl HG Hb Hty He.
       rewrite cmp_unfold in Hc. apply cmp_var_inv in Hc. destruct Hc as [ty0 [Ety [Es Est]]]. subst.
       simpl in Hws. apply var_ok_inv in Hws. destruct Hws as [ty1 [E1 Hg]]. injection E1 as E1. subst ty1.
       destruct (erel_var p cp n G _ e ce v _ He Hg) as [val [pv [El [Ec [Hv Hd]]]]].
@@ -103,7 +103,7 @@ Section FLe.
   Lemma fl_lit : forall N z, flw p cp N (FLit z) /\ flc p cp N (FLit z).
   Proof.
     intros N z. split.
-    - intros n Hn G cur cont st s st' e ce k Hwc Hf Hkd Hws Hnc Hl HG Hb Hni H8 Hsh He HCK.
+    - intros n Hn G cur cont st s st' e ce k Hwc Hf Hkd Hws Hl HG Hb Hni Hsh He HCK.
       rewrite wc_unfold in Hwc. unfold wc_lit in Hwc. apply mret_inv in Hwc. destruct Hwc; subst.
       change (tkind p (FLit z)) with false in *.
       destruct (CK_head n k cont ce _ Hsh HCK) as [kv [Hh Hk]].
@@ -112,7 +112,7 @@ Section FLe.
       eapply sim_fstep; [reflexivity|].
       apply sim_cstep. rewrite (cstep_cut_lit cp); [|exact Hsh]. rewrite Hh.
       eapply Kb_use; [exact Hk | lia | exact I | reflexivity].
-    - intros n Hn G cur ty' st c st' e ce k m Hc Hf Hkd Hk0 Hws Hnc Hl HG Hb Hty He HK.
+    - intros n Hn G cur ty' st c st' e ce k m Hc Hf Hkd Hk0 Hws Hl HG Hb Hty He HK.
       rewrite cmp_unfold in Hc. unfold cmp_lit in Hc. apply mret_inv in Hc. destruct Hc; subst.
       destruct n as [|n1]; [apply sim_zero|].
       eapply sim_fstep; [reflexivity|]. apply sim_cstep. simpl.
@@ -125,16 +125,16 @@ Section FLe.
     cmp (codata_of p) cur false a CI64 st = Ok (a', st1) ->
     cmp (codata_of p) cur false b CI64 st1 = Ok (b', st2) ->
     frag p a = true -> frag p b = true -> kd p a = true -> kd p b = true -> tkind p a = false -> tkind p b = false ->
-    ws G a = true -> ws G b = true -> nocap a = true -> nocap b = true ->
+    ws G a = true -> ws G b = true ->
     lifted_ok cp st2 -> Gused G st -> incl (bnd a) (st_used_vars st) -> incl (bnd b) (st_used_vars st) ->
     erel p cp n G (Sof (fvt (COp a' (op_of o) b'))) e ce ->
     Kb p cp n k (KRet m) ->
     sim p cp n (FEval a e (FkOpL o b e k)) (SNext (Arg (CProducer a') ce (MOpL (op_of o) b' ce m))).
   Proof.
-    intros N a o b Ha Hb n Hn G cur st a' st1 b' st2 e ce k m Hca Hcb Hfa Hfb Hka Hkb Hta Htb Hwa Hwb Hna Hnb Hl HG Hba Hbb He HK.
+    intros N a o b Ha Hb n Hn G cur st a' st1 b' st2 e ce k m Hca Hcb Hfa Hfb Hka Hkb Hta Htb Hwa Hwb Hl HG Hba Hbb He HK.
     assert (Hg1 : grows st st1) by (eapply cmp_grows; exact Hca).
     assert (Hg2 : grows st1 st2) by (eapply cmp_grows; exact Hcb).
-    apply (Ha n Hn G cur CI64 st a' st1 e ce _ _ Hca Hfa Hka Hta Hwa Hna).
+    apply (Ha n Hn G cur CI64 st a' st1 e ce _ _ Hca Hfa Hka Hta Hwa).
     - eapply lifted_ok_grows; eauto.
     - exact HG.
     - exact Hba.
@@ -146,7 +146,7 @@ Section FLe.
         [|eapply sim_stuck; reflexivity].
       apply vrel_int in Hv. subst pv.
       eapply sim_fstep; [reflexivity|]. apply sim_cstep. simpl.
-      apply (Hb j1 ltac:(lia) G cur CI64 st1 b' st2 e ce _ _ Hcb Hfb Hkb Htb Hwb Hnb Hl).
+      apply (Hb j1 ltac:(lia) G cur CI64 st1 b' st2 e ce _ _ Hcb Hfb Hkb Htb Hwb Hl).
       + eapply Gused_grows; eauto.
       + eapply incl_grows; eauto.
       + reflexivity.
@@ -168,12 +168,11 @@ Section FLe.
     flw p cp N (FOp a o b) /\ flc p cp N (FOp a o b).
   Proof.
     intros N a o b Ha Hb. split.
-    - intros n Hn G cur cont st s st' e ce k Hwc Hf Hkd Hws Hnc Hl HG Hbn Hni H8 Hsh He HCK.
+    - intros n Hn G cur cont st s st' e ce k Hwc Hf Hkd Hws Hl HG Hbn Hni Hsh He HCK.
       rewrite wc_unfold in Hwc. apply wc_op_inv in Hwc. destruct Hwc as [a' [st1 [b' [Hca [Hcb Es]]]]]. subst s.
       change (tkind p (FOp a o b)) with false in *.
-      simpl in Hf, Hkd, Hws, Hnc.
+      simpl in Hf, Hkd, Hws.
       apply andb_prop in Hf. destruct Hf as [Hf1 Hf2]. apply andb_prop in Hws. destruct Hws as [Hw1 Hw2].
-      apply andb_prop in Hnc. destruct Hnc as [Hn1 Hn2].
       apply andb_prop in Hkd. destruct Hkd as [Hkd Htb]. apply andb_prop in Hkd. destruct Hkd as [Hkd Hta].
       apply andb_prop in Hkd. destruct Hkd as [Hka Hkb]. apply negb_true_iff in Hta. apply negb_true_iff in Htb.
       destruct n as [|n1]; [apply sim_zero|].
@@ -190,11 +189,10 @@ Section FLe.
       + eapply erel_weaken; [exact He | | lia]. apply Sof_incl. intros bb Hx. apply fvs_cut. left. exact Hx.
       + eapply Kb_mono; [eapply (CK_mcutk (S n1)); eauto | lia].
         intros bb Hbb. apply Sof_in. apply fvs_cut. right. exact Hbb.
-    - intros n Hn G cur ty' st c st' e ce k m Hc Hf Hkd Hk0 Hws Hnc Hl HG Hbn Hty He HK.
+    - intros n Hn G cur ty' st c st' e ce k m Hc Hf Hkd Hk0 Hws Hl HG Hbn Hty He HK.
       rewrite cmp_unfold in Hc. apply cmp_op_inv in Hc. destruct Hc as [a' [st1 [b' [Hca [Hcb Es]]]]]. subst c.
-      simpl in Hf, Hkd, Hws, Hnc.
+      simpl in Hf, Hkd, Hws.
       apply andb_prop in Hf. destruct Hf as [Hf1 Hf2]. apply andb_prop in Hws. destruct Hws as [Hw1 Hw2].
-      apply andb_prop in Hnc. destruct Hnc as [Hn1 Hn2].
       apply andb_prop in Hkd. destruct Hkd as [Hkd Htb]. apply andb_prop in Hkd. destruct Hkd as [Hkd Hta].
       apply andb_prop in Hkd. destruct Hkd as [Hka Hkb]. apply negb_true_iff in Hta. apply negb_true_iff in Htb.
       destruct n as [|n1]; [apply sim_zero|].
@@ -210,12 +208,12 @@ Section FLe.
   Lemma fl_exit : forall N a ty, flc p cp N a -> flw p cp N (FExit a ty).
   Proof.
     intros N a ty Ha.
-    intros n Hn G cur cont st s st' e ce k Hwc Hf Hkd Hws Hnc Hl HG Hbn Hni H8 Hsh He HCK.
+    intros n Hn G cur cont st s st' e ce k Hwc Hf Hkd Hws Hl HG Hbn Hni Hsh He HCK.
     rewrite wc_unfold in Hwc. apply wc_exit_inv in Hwc. destruct Hwc as [a' [ty0 [Hca [Ety Es]]]]. subst s.
-    simpl in Hf, Hkd, Hws, Hnc. apply andb_prop in Hkd. destruct Hkd as [Hka Hta]. apply negb_true_iff in Hta.
+    simpl in Hf, Hkd, Hws. apply andb_prop in Hkd. destruct Hkd as [Hka Hta]. apply negb_true_iff in Hta.
     destruct n as [|n1]; [apply sim_zero|].
     eapply sim_fstep; [reflexivity|]. apply sim_cstep. simpl.
-    apply (Ha n1 ltac:(lia) G cur CI64 st a' st' e ce _ _ Hca Hf Hka Hta Hws Hnc Hl HG Hbn eq_refl).
+    apply (Ha n1 ltac:(lia) G cur CI64 st a' st' e ce _ _ Hca Hf Hka Hta Hws Hl HG Hbn eq_refl).
     - eapply erel_weaken; [exact He | | lia]. intros x Hx. exact Hx.
     - apply Kb_intro. intros j Hj v pv Hd Hv. rewrite (dval_interact_ret p cp j v pv _ Hd Hv).
       destruct j as [|j1]; [apply sim_zero|].
@@ -231,26 +229,26 @@ Section FLe.
     flw p cp N (FParen t) /\ flc p cp N (FParen t) /\ flt p cp N (FParen t).
   Proof.
     intros N t Hw Hc Ht. split; [|split].
-    - intros n Hn G cur cont st s st' e ce k Hwc Hf Hkd Hws Hnc Hl HG Hbn Hni H8 Hsh He HCK.
-      rewrite wc_unfold in Hwc. simpl in Hf, Hkd, Hws, Hnc, Hbn, H8.
+    - intros n Hn G cur cont st s st' e ce k Hwc Hf Hkd Hws Hl HG Hbn Hni Hsh He HCK.
+      rewrite wc_unfold in Hwc. simpl in Hf, Hkd, Hws, Hbn.
       change (tkind p (FParen t)) with (tkind p t) in *.
       destruct n as [|n1]; [apply sim_zero|].
       eapply sim_fstep; [reflexivity|].
-      apply (Hw n1 ltac:(lia) G cur cont st s st' e ce k Hwc Hf Hkd Hws Hnc Hl HG Hbn Hni H8 Hsh).
+      apply (Hw n1 ltac:(lia) G cur cont st s st' e ce k Hwc Hf Hkd Hws Hl HG Hbn Hni Hsh).
       + eapply erel_weaken; [exact He | | lia]. intros x Hx. exact Hx.
       + eapply CK_transfer; [exact Hsh | exact HCK | | lia]. intros x _ Hx. split; [exact Hx | reflexivity].
-    - intros n Hn G cur ty' st c st' e ce k m Hcc Hf Hkd Hk0 Hws Hnc Hl HG Hbn Hty He HK.
-      rewrite cmp_unfold in Hcc. simpl in Hf, Hkd, Hws, Hnc, Hbn.
+    - intros n Hn G cur ty' st c st' e ce k m Hcc Hf Hkd Hk0 Hws Hl HG Hbn Hty He HK.
+      rewrite cmp_unfold in Hcc. simpl in Hf, Hkd, Hws, Hbn.
       change (tkind p (FParen t)) with (tkind p t) in *.
       destruct n as [|n1]; [apply sim_zero|].
       eapply sim_fstep; [reflexivity|].
-      apply (Hc n1 ltac:(lia) G cur ty' st c st' e ce k m Hcc Hf Hkd Hk0 Hws Hnc Hl HG Hbn Hty).
+      apply (Hc n1 ltac:(lia) G cur ty' st c st' e ce k m Hcc Hf Hkd Hk0 Hws Hl HG Hbn Hty).
       + eapply erel_weaken; [exact He | | lia]. intros x Hx. exact Hx.
       + eapply Kb_mono; [exact HK | lia].
-    - intros n Hn G cur ty' st c st' e ce Hcc Hf Hkd Hk1 Hws Hnc Hl HG Hbn Hty He.
-      rewrite cmp_unfold in Hcc. simpl in Hf, Hkd, Hws, Hnc, Hbn.
+    - intros n Hn G cur ty' st c st' e ce Hcc Hf Hkd Hk1 Hws Hl HG Hbn Hty He.
+      rewrite cmp_unfold in Hcc. simpl in Hf, Hkd, Hws, Hbn.
       change (tkind p (FParen t)) with (tkind p t) in *.
-      destruct (Ht n Hn G cur ty' st c st' e ce Hcc Hf Hkd Hk1 Hws Hnc Hl HG Hbn Hty He) as [pv [H1 [H2 [H2' [H3 H4]]]]].
+      destruct (Ht n Hn G cur ty' st c st' e ce Hcc Hf Hkd Hk1 Hws Hl HG Hbn Hty He) as [pv [H1 [H2 [H2' [H3 H4]]]]].
       exists pv. split; [exact H1|]. split; [exact H2|]. split; [exact H2'|]. split.
       + (* one more source step: the parenthesis *)
         apply Co_intro. intros j Hj x args args' k kv Hargs Hdf Hk.
